@@ -23,6 +23,18 @@ CLAIMED = {
     "C19": dict(technique="TLA+ reference enumerated by TLC, every state executed on the implementation", ref="5 C19",
                 text=FUNC_TEXT, note=FUNC_NOTE, engine="tlc-func"),
     "C01": dict(technique="TLA+ model checking (TLC) + spec-to-code replay + trace validation", ref="5 C01"),
+    "C04": dict(technique="TLC-generated behaviours of the scheduler/template model replayed on the tree; encode/decode relation checked on every reached state", ref="5 C04",
+                text="TLC explores the TLA+ model of Sequence (built and parametrized mode: every operation kind, protocols, EOM, DMM, SLM, XY, variables, array slices) over the rel_* configurations; every behaviour is replayed on the tree and, on every reached state that conforms to the model, the document of to_abstract_repr is validated against the published JSON schema with the harness's own jsonschema call, decoded, and the decoded sequence compared with the original (timeline, pulses, phase references, measurement; for parametrized sequences the built sequence for every assignment); the legacy _serialize/_deserialize pair likewise.",
+                note="the round-trip relation itself is implementation-vs-implementation on model-generated programs; bounded by the call lattices of rel_core, rel_eom, rel_render_ising, rel_render_xy, rel_template, rel_typestate (depth 2-3 quick, 3-4 thorough); channel-table order and basis first-use order are not compared; JSON-schema validity is an observation from jsonschema"),
+    "C11": dict(technique="TLA+ references (EmuBits, EmuTimes, EmuQubit) enumerated by TLC, every state executed on both emulators", ref="5 C11",
+                text=FUNC_TEXT + " EmuQubit derives exact populations at Clifford points from the documented Hamiltonian; EmuTimes says which states the V2 backend must store; EmuBits the bit conventions and detection errors over exact rationals. Norm / trace / positivity are monitored observations.",
+                note=FUNC_NOTE + "; V2-vs-legacy states compared within 5e-3", engine="tlc-func"),
+    "C16": dict(technique="TLA+ reference (Waveforms.tla) enumerated by TLC, every state executed on the implementation", ref="5 C16",
+                text=FUNC_TEXT + " Window areas / from_max_val / finiteness for all durations are contracts evaluated on the implementation's samples (monitored observations).",
+                note=FUNC_NOTE, engine="tlc-func"),
+    "C17": dict(technique="TLA+ models (Elision, NoiseTable, Aliasing) checked by TLC, every state / behaviour executed on the implementation", ref="5 C17",
+                text=FUNC_TEXT + " Aliasing.tla is a state machine over a heap of live objects (construct, construct from shared arguments, decode, serialise, mutate) whose behaviours are replayed with deep snapshots of every other live object.",
+                note=FUNC_NOTE, engine="tlc-func"),
     "C05": dict(technique="TLA+ reference (Hamiltonian.tla structure + PulserRender.tla per-atom drive) checked by TLC, compared entrywise with QutipEmulator.get_hamiltonian on TLC-generated behaviours", ref="5 C05",
                 text="TLC enumerates the matrix structure of the documented Hamiltonian (Hamiltonian.tla: which entry carries which term in the documented level order and register tensor order; Hermiticity, locality and counting laws checked by TLC) and, for every behaviour of the render configurations explored from the scheduler model, the per-atom Omega/delta/phi attribution (PulserRender.tla); the harness evaluates the terms numerically and compares QutipEmulator.get_hamiltonian(t) entry by entry at the segment boundaries of every reachable state.",
                 note="bounded: 3 atoms, the render configurations (global/local/multi-target channels, DMM weights, SLM mask, XY with magnetic field), up to 10 sample times per state; trusted: the 20-line numeric evaluation of a term, qutip's full(); times where several pulses of different phase act on one atom and basis are not compared (not specified)"),
